@@ -1,4 +1,4 @@
-//go:build verif
+//go:build verif && verif_c07
 
 // Exports for the verification harness (/verif). Adds code only; compiled only with -tags verif.
 
